@@ -659,818 +659,3 @@ Example listener_history_nontrivial :
   [Raise TraitError; Val 7; Raise TraitError; Val 42; Val 7; Done; Done; Raise TraitError; Done;
    Done; Raise AttributeError; Val 1; Raise AttributeError; Done; Raise AttributeError].
 Proof. vm_compute. split; reflexivity. Qed.
-
-
-(* add_class_trait, inductively.  ANY class of ANY hierarchy (hh = pre ++ cd :: post, k = its
-   position; ancestors arbitrary, multiple inheritance included), tables without Map/List;
-   ANY sequence of add_class_trait(name, trait) calls on that class — accepted or rejected
-   (already defined), explicit names and wildcards in any order, plain traits — [class_phase];
-   then EVERY clean history on a fresh instance: the law holds with the class-level rule computed
-   from the hierarchy WITH the accepted run-time declarations appended to the class body
-   ([snd (class_phase ...)], the checker's CorrT.add_decl: [runtime_declarations_bookkeeping]).
-   Behind it: [add_class_trait_is_a_declaration] — one accepted call keeps the class's tables in
-   agreement (dictionaries equal, prefix list sorted longest first) with the declarative tables
-   of the class body extended by that declaration. *)
-Theorem law_holds_after_runtime_declarations :
-  forall pre cd post adds ops i,
-    let hh := pre ++ cd :: post in
-    let k := length pre in
-    plain_t (tabs_nth (tables hh) k) = true ->
-    forallb (fun e => plainp (snd e)) adds = true ->
-    let ph := class_phase hh k (tables hh) hh adds in
-    let t := tabs_nth (fst ph) k in
-    clean_run (snd t) (init_state (fst t)) ops = true ->
-    law_hist (class_rule (vis_nth (visible (snd ph)) k)) i l_init (run (snd t) (init_state (fst t)) ops) = [].
-Proof. exact class_ops_then_history. Qed.
-Print Assumptions law_holds_after_runtime_declarations.
-
-(* the same for the runs the checker evaluates (CorrT.step_t on the tables of all classes) *)
-Theorem law_holds_on_class_operation_runs :
-  forall pre cd post adds ops i,
-    let hh := pre ++ cd :: post in
-    let k := length pre in
-    plain_t (tabs_nth (tables hh) k) = true ->
-    forallb (fun e => plainp (snd e)) adds = true ->
-    let t := tabs_nth (fst (class_phase hh k (tables hh) hh adds)) k in
-    clean_run (snd t) (init_state (fst t)) ops = true ->
-    law_hist_ta [k] hh i [l_init]
-      (run_t hh [k] (tables hh, [([], [])])
-             (map (fun e => C13.CorrT.TClass k (fst e) (snd e)) adds ++ map (C13.CorrT.TObj 0) ops)) = [].
-Proof. exact class_ops_run. Qed.
-Print Assumptions law_holds_on_class_operation_runs.
-
-Theorem add_class_trait_is_a_declaration :
-  forall V cd t n p t', plainp p = true ->
-    Agr t (vis_class V cd) -> add_class1 false t n p = Some t' ->
-    Agr t' (vis_class V (mkClass (c_decls cd ++ [(n, p)]) (c_bases cd))).
-Proof. exact Agr_add. Qed.
-Print Assumptions add_class_trait_is_a_declaration.
-
-Theorem runtime_declarations_bookkeeping :
-  forall h k n p, (3 <= k)%nat -> app_decl (roots ++ h) k (n, p) = roots ++ C13.CorrT.add_decl h k n p.
-Proof. exact app_decl_roots. Qed.
-Print Assumptions runtime_declarations_bookkeeping.
-
-(* the two cached-name findings: when the name was touched (resolved, cached) BEFORE the matching
-   add_class_trait the law fails on the model too — which is why the theorem above has the class
-   operations before the first use of the instance *)
-Theorem runtime_wildcard_after_use_refuted :
-  let hh := roots ++ [mkClass [] [0%nat]] in
-  law_hist_ta [3%nat] hh 0 [l_init]
-    (run_t hh [3%nat] (tables hh, [([], [])])
-       [C13.CorrT.TObj 0 (OGet n_cax); C13.CorrT.TClass 3 [99; 95] (PTyped VInt 7); C13.CorrT.TObj 0 (OGet n_cax)]) <> [].
-Proof. exact cached_wildcard_refutes. Qed.
-Print Assumptions runtime_wildcard_after_use_refuted.
-
-Theorem runtime_class_trait_after_use_refuted :
-  let hh := roots ++ [mkClass [] [0%nat]; mkClass [] [3%nat]] in
-  law_hist_ta [4%nat] hh 0 [l_init]
-    (run_t hh [4%nat] (tables hh, [([], [])])
-       [C13.CorrT.TObj 0 (OGet n_zz); C13.CorrT.TClass 3 n_zz (PTyped VStr 102); C13.CorrT.TObj 0 (OGet n_zz)]) <> [].
-Proof. exact cached_class_trait_refutes. Qed.
-Print Assumptions runtime_class_trait_after_use_refuted.
-
-(* Non-vacuity: strict class B(A) in a hierarchy with a sibling; on B: cab_ = Int accepted, c_ = Str
-   accepted, c_ again rejected, explicit cq = ReadOnly accepted, a wildcard declared in the body rejected;
-   then a history: cabx is an Int, cx a Str, cq write-once, cz still rejected by the strict default *)
-Example runtime_declarations_nontrivial :
-  let pre := roots ++ [mkClass [([100; 95], PEvent None)] [1%nat]] in
-  let cd := mkClass [([101; 95], PAny 5)] [3%nat] in
-  let post := [mkClass [] [3%nat]] in
-  let adds := [([99; 97; 98; 95], PTyped VInt 7); ([99; 95], PTyped VStr 102); ([99; 95], PDisallow);
-               ([99; 113], PReadOnly VUndef); ([101; 95], PDisallow)] in
-  let hh := pre ++ cd :: post in
-  let ph := class_phase hh 4 (tables hh) hh adds in
-  let t := tabs_nth (fst ph) 4 in
-  let ops := [OGet [99; 97; 98; 120]; OSet [99; 97; 98; 120] 101; OGet [99; 120]; OSet [99; 113] 1; OSet [99; 113] 2;
-              OGet [122]; OSet [100; 120] 1; OGet [101; 120]] in
-  plain_t (tabs_nth (tables hh) 4) = true /\
-  clean_run (snd t) (init_state (fst t)) ops = true /\
-  map (fun e => length (c_decls e)) (snd ph) = [3; 1; 2; 1; 4; 0]%nat /\
-  map (fun x => o_out (snd x)) (run (snd t) (init_state (fst t)) ops) =
-  [Val 7; Raise TraitError; Val 102; Done; Raise TraitError; Raise AttributeError; Done; Val 5].
-Proof. vm_compute. repeat split; reflexivity. Qed.
-
-
-(* add_class_trait on the object's own class INTERLEAVED with the object's operations, any order and
-   number ([orun]: the object and the prefix list of its class; [law_hist_o]: the law with the
-   class-level rule recomputed from the hierarchy after every accepted call).  Hypothesis
-   [oclean_run] (boolean, evaluated along the run): finding 1, Map/List traits, and the cached-name
-   finding are excluded — an accepted run-time wildcard must not match a name already cached in the
-   class dictionary or stored in the object unless that name is declared, governed by an instance
-   trait, or a __x__ name; an accepted explicit name must not already hold a value unless its trait
-   stores values.  ([runtime_wildcard_after_use_refuted] shows the exclusion is needed.) *)
-Theorem law_holds_on_interleaved_class_operations :
-  forall pre cd post xs i,
-    let hh := pre ++ cd :: post in
-    let k := length pre in
-    let t := tabs_nth (tables hh) k in
-    plain_t t = true ->
-    oclean_run k (init_state (fst t), snd t) hh xs = true ->
-    law_hist_o k hh i l_init (orun (init_state (fst t), snd t) xs) = [].
-Proof. exact interleaved_class_ops. Qed.
-Print Assumptions law_holds_on_interleaved_class_operations.
-
-(* Non-vacuity: HasTraits-derived class with a declared wildcard; use; add a longer and a shorter wildcard;
-   use names matching both / one; add an explicit write-once name; a rejected repetition; a late
-   wildcard for names not touched so far; uses in between *)
-Example interleaved_class_operations_nontrivial :
-  let hh := roots ++ [mkClass [([100; 95], PTyped VInt 7)] [0%nat]] in
-  let t := tabs_nth (tables hh) 3 in
-  let xs := [OObj (OSet [122] 1); OObj (OGet [100; 120]); OCls [99; 97; 98; 95] (PTyped VInt 7);
-             OCls [99; 95] (PTyped VStr 102); OObj (OGet [99; 97; 98; 120]); OObj (OSet [99; 97; 98; 121] 101);
-             OObj (OGet [99; 120]); OCls [99; 113] (PReadOnly VUndef); OObj (OSet [99; 113] 1); OObj (OSet [99; 113] 2);
-             OCls [99; 95] PDisallow; OObj (OGet [122]); OCls [101; 95] (PEvent None); OObj (OGet [101; 120])] in
-  plain_t t = true /\
-  oclean_run 3 (init_state (fst t), snd t) hh xs = true /\
-  map (fun x => o_out (snd x)) (orun (init_state (fst t), snd t) xs) =
-  [Done; Val 7; Done; Done; Val 7; Raise TraitError; Val 102; Done; Done; Raise TraitError; Raise TraitError;
-   Val 1; Done; Raise AttributeError].
-Proof. vm_compute. repeat split; reflexivity. Qed.
-
-(* ... and the same for the runs the checker evaluates (CorrT.step_t on the tables of all classes) *)
-Theorem law_holds_on_interleaved_class_operation_runs :
-  forall pre cd post xs i,
-    let hh := pre ++ cd :: post in
-    let k := length pre in
-    let t := tabs_nth (tables hh) k in
-    plain_t t = true ->
-    oclean_run k (init_state (fst t), snd t) hh xs = true ->
-    law_hist_ta [k] hh i [l_init] (run_t hh [k] (tables hh, [([], [])]) (map (top_of k) xs)) = [].
-Proof. exact interleaved_class_ops_run. Qed.
-Print Assumptions law_holds_on_interleaved_class_operation_runs.
-
-(* Subclasses.  [Ext v v' n p]: the declarative tables v' are v with the declaration (n -> p) added
-   if absent (explicit name or wildcard).  An accepted add_class_trait extends the declarative
-   tables of the class itself; the extension is inherited through the body of every class that has
-   that class as its single base; and _add_class_trait(is_subclass=True) keeps a subclass's model
-   tables in agreement with the extended declarative tables. *)
-Theorem accepted_add_class_trait_extends_the_class :
-  forall V cd n p, plainp p = true ->
-    (if ends_us n then amem (removelast n) (snd (vis_class V cd)) else amem n (fst (vis_class V cd))) = false ->
-    Ext (vis_class V cd) (vis_class V (mkClass (c_decls cd ++ [(n, p)]) (c_bases cd))) n p.
-Proof. exact Ext_own. Qed.
-Print Assumptions accepted_add_class_trait_extends_the_class.
-
-Theorem runtime_declaration_is_inherited_by_single_base_subclass :
-  forall V V' cd b n p, c_bases cd = [b] ->
-    Ext (vis_nth V b) (vis_nth V' b) n p -> assoc [] (snd (vis_nth V b)) <> None ->
-    Ext (vis_class V cd) (vis_class V' cd) n p.
-Proof. exact Ext_inherit. Qed.
-Print Assumptions runtime_declaration_is_inherited_by_single_base_subclass.
-
-Theorem add_class_trait_on_subclass_agrees_with_inherited_declaration :
-  forall t v v' n p t', plainp p = true ->
-    Agr t v -> Ext v v' n p -> add_class1 true t n p = Some t' -> Agr t' v'.
-Proof. exact Agr_add_sub. Qed.
-Print Assumptions add_class_trait_on_subclass_agrees_with_inherited_declaration.
-
-(* ... and the hierarchy-level theorem.  [Path hh k j]: class j is reached from class k through
-   classes that each have exactly one base (any hierarchy around them).  Any sequence of
-   add_class_trait calls on the BASE class k (accepted or rejected, explicit names and wildcards),
-   then every clean history on a fresh instance of the SUBCLASS j: the law holds with the rule of j
-   computed from the hierarchy with the accepted declarations appended to the body of k, i.e.
-   inherited by j unless j or a class in between defines the name itself. *)
-Theorem law_holds_for_subclass_instances_after_runtime_declarations :
-  forall hh k j adds ops i,
-    Path hh k j -> j <> k ->
-    plain_t (tabs_nth (tables hh) k) = true -> plain_t (tabs_nth (tables hh) j) = true ->
-    forallb (fun e => plainp (snd e)) adds = true ->
-    let ph := class_phase hh k (tables hh) hh adds in
-    let t := tabs_nth (fst ph) j in
-    clean_run (snd t) (init_state (fst t)) ops = true ->
-    law_hist (class_rule (vis_nth (visible (snd ph)) j)) i l_init (run (snd t) (init_state (fst t)) ops) = [].
-Proof. exact subclass_runtime_declarations. Qed.
-Print Assumptions law_holds_for_subclass_instances_after_runtime_declarations.
-
-Theorem runtime_declaration_reaches_the_whole_single_base_path :
-  forall hh k n p, (k < length hh)%nat -> plainp p = true ->
-    (if ends_us n then amem (removelast n) (snd (vis_nth (visible hh) k)) else amem n (fst (vis_nth (visible hh) k))) = false ->
-    forall j, Path hh k j -> Ext (vis_nth (visible hh) j) (vis_nth (visible (app_decl hh k (n, p))) j) n p.
-Proof. exact Ext_path. Qed.
-Print Assumptions runtime_declaration_reaches_the_whole_single_base_path.
-
-(* Non-vacuity (the second half of the C13-t2 demo, one level deeper): Base(HasStrictTraits) declares
-   tr_ = ReadOnly; Derived(Base); Leaf(Derived) declares z = Any(5).  On Base at run time: t_ = Int (accepted),
-   tr_ = Disallow (rejected), tq = Constant(3) (accepted), z = Event (accepted on Base, kept out of Leaf).
-   On a Leaf instance: trx is still write-once, tc is an Int, tq the constant, z Leaf's own, w rejected. *)
-Example subclass_runtime_declarations_nontrivial :
-  let hh := roots ++ [mkClass [([116; 114; 95], PReadOnly VUndef)] [1%nat]; mkClass [] [3%nat]; mkClass [([122], PAny 5)] [4%nat]] in
-  let adds := [([116; 95], PTyped VInt 7); ([116; 114; 95], PDisallow); ([116; 113], PConstant 3); ([122], PEvent None)] in
-  let ph := class_phase hh 3 (tables hh) hh adds in
-  let t := tabs_nth (fst ph) 5 in
-  let ops := [OSet [116; 114; 120] 101; OSet [116; 114; 120] 102; OGet [116; 114; 120]; OGet [116; 99]; OSet [116; 99] 101;
-              OGet [116; 113]; OGet [122]; OGet [119]] in
-  Path hh 3 5 /\
-  plain_t (tabs_nth (tables hh) 3) = true /\ plain_t (tabs_nth (tables hh) 5) = true /\
-  clean_run (snd t) (init_state (fst t)) ops = true /\
-  map (fun e => length (c_decls e)) (snd ph) = [3; 1; 2; 4; 0; 1]%nat /\
-  map (fun x => o_out (snd x)) (run (snd t) (init_state (fst t)) ops) =
-  [Done; Raise TraitError; Val 101; Val 7; Raise TraitError; Val 3; Val 5; Raise AttributeError].
-Proof.
-  split.
-  - apply (PS _ _ 4%nat 5%nat); [apply (PS _ _ 3%nat 4%nat); [constructor| | |]| | |]; simpl; try lia; reflexivity.
-  - vm_compute. repeat split; reflexivity.
-Qed.
-
-(* ------------------------------------------------------------------ *)
-(* Depth round, item 3: the life of a mapped trait interleaved with operations on other names
-   (coq/C13/MapInterleave.v).  The hypothesis is one boolean over the run, [iclean]: outside a
-   life any clean operation, or add_trait(n, Map(m, d)) with d a key of m, which opens a life;
-   inside the life of n: remove_trait(n) closes it, get/set/del of n and n_ are unrestricted,
-   and every other operation (get, set, del, add_trait of a plain trait, remove_trait) must be
-   clean and on a name k "far" from the pair: k, k_ and (when k ends in _) k without its last
-   character are all different from n and n_.  Lives may follow each other in any number, each
-   with its own n, m, d. *)
-
-Theorem law_holds_on_mapped_lives_interleaved_with_other_names :
-  forall (h : list classdef) (c : nat) (os : list op) (i : Z),
-    plain_class h c = true ->
-    let t := class_tables h c in
-    iclean (snd t) None (init_state (fst t)) os = true ->
-    law_hist (spec_rule h c) i l_init (run (snd t) (init_state (fst t)) os) = [].
-Proof. exact interleaved_lives_spec. Qed.
-Print Assumptions law_holds_on_mapped_lives_interleaved_with_other_names.
-
-(* the same under the MRO reading the checker uses, for single-inheritance hierarchies *)
-Theorem law_holds_on_interleaved_mapped_lives_under_mro_reading :
-  forall (h : list classdef) (c : nat) (os : list op) (i : Z),
-    single h = true -> (c < length (roots ++ h))%nat ->
-    plain_class h c = true ->
-    let t := class_tables h c in
-    iclean (snd t) None (init_state (fst t)) os = true ->
-    law_hist (mro_rule h c) i l_init (run (snd t) (init_state (fst t)) os) = [].
-Proof. exact interleaved_lives_single. Qed.
-Print Assumptions law_holds_on_interleaved_mapped_lives_under_mro_reading.
-
-(* the general form: from any state of the invariant (outside a life: the plain invariant; inside
-   the life of n: the plain invariant of the object with n and n_ erased, the pair installed, the
-   law's bookkeeping in agreement) *)
-Theorem law_holds_on_interleaved_mapped_lives_from_any_invariant_state :
-  forall ct0 pt (os : list op) (md : life) s ls (i : Z),
-    KI ct0 pt md s ls -> iclean pt md s os = true ->
-    law_hist (model_rule ct0 pt) i ls (run pt s os) = [].
-Proof. exact interleaved_lives. Qed.
-Print Assumptions law_holds_on_interleaved_mapped_lives_from_any_invariant_state.
-
-(* the hypothesis is a generalisation: every clean history on plain traits satisfies it *)
-Theorem clean_histories_are_interleaved_histories :
-  forall pt os s, clean_run pt s os = true -> iclean pt None s os = true.
-Proof. exact iclean_clean_run. Qed.
-Print Assumptions clean_histories_are_interleaved_histories.
-
-(* the step lemma that is new: during the life of n, a clean operation on a far name passes the
-   law's step check and preserves the in-life invariant *)
-Theorem far_operation_during_a_mapped_life_obeys_the_law :
-  forall ct0 pt n m d s ls o,
-    K ct0 pt n m d s ls -> far n (op_name o) = true -> clean_step s o = true ->
-    law_step (model_rule ct0 pt) ls o (snd (step pt s o)) = [] /\
-    K ct0 pt n m d (fst (step pt s o)) (law_next (model_rule ct0 pt) ls o (snd (step pt s o))).
-Proof. exact K_far. Qed.
-Print Assumptions far_operation_during_a_mapped_life_obeys_the_law.
-
-(* and the reason: on a far name whose traits are plain the model's step commutes with erasing
-   the pair from the object, and so does the law's bookkeeping *)
-Theorem far_step_commutes_with_erasing_the_pair :
-  forall n pt s o,
-    far n (op_name o) = true -> plain_at pt s (op_name o) ->
-    (forall k q, o = OAdd k q -> plainp q = true) ->
-    step pt (MapInterleave.erase n s) o = (MapInterleave.erase n (fst (step pt s o)), snd (step pt s o)).
-Proof. exact step_far. Qed.
-Print Assumptions far_step_commutes_with_erasing_the_pair.
-
-Theorem far_law_update_commutes_with_erasing_the_pair :
-  forall n (crule : name -> rule) ls o ob,
-    far n (op_name o) = true ->
-    (forall k q, o = OAdd k q -> plainp q = true) ->
-    (forall p, found_trait crule ls (op_name o) = Some p -> plainp p = true) ->
-    lerase n (law_next crule ls o ob) = law_next crule (lerase n ls) o ob.
-Proof. exact law_next_far. Qed.
-Print Assumptions far_law_update_commutes_with_erasing_the_pair.
-
-(* opening and closing a life between states of the two invariants *)
-Theorem add_trait_of_a_mapped_trait_opens_a_life :
-  forall ct0 pt n m d s ls, Inv ct0 pt s ls ->
-    law_step (model_rule ct0 pt) ls (OAdd n (PMap m d)) (snd (step pt s (OAdd n (PMap m d)))) = [] /\
-    K ct0 pt n m d (fst (step pt s (OAdd n (PMap m d))))
-      (law_next (model_rule ct0 pt) ls (OAdd n (PMap m d)) (snd (step pt s (OAdd n (PMap m d))))).
-Proof. exact K_start. Qed.
-Print Assumptions add_trait_of_a_mapped_trait_opens_a_life.
-
-Theorem remove_trait_closes_a_life_into_the_plain_invariant :
-  forall ct0 pt n m d s ls, K ct0 pt n m d s ls ->
-    law_step (model_rule ct0 pt) ls (ORem n) (snd (step pt s (ORem n))) = [] /\
-    Inv ct0 pt (fst (step pt s (ORem n))) (law_next (model_rule ct0 pt) ls (ORem n) (snd (step pt s (ORem n)))).
-Proof. exact K_end. Qed.
-Print Assumptions remove_trait_closes_a_life_into_the_plain_invariant.
-
-(* Non-vacuity: strict class with the wildcard a_; during the life of "ab" (Map({1: 11, 2: 12}))
-   the object gets add_trait("c"), writes, reads and deletes of "c", add_trait("d", Int),
-   remove_trait("c"); then remove_trait("ab"); then a life of "c" during which "ab" is used.
-   None of the earlier mapped-trait theorems covers this history. *)
-Example interleaved_lives_nontrivial :
-  let t := class_tables [mkClass [([97; 95], PTyped VInt 7)] [1%nat]] 3 in
-  let os := [OSet [99] 4; OAdd [99] (PAny 5); OSet [99] 6;
-             OAdd [97; 98] (PMap [(1, 11); (2, 12)] 1);
-             OGet [97; 98; 95]; OSet [99] 7; OSet [97; 98] 2; OAdd [100] (PTyped VInt 0);
-             OGet [100]; OSet [100] 101; ODel [99]; OGet [97; 98; 95]; OGet [99; 95]; ORem [99]; OGet [99];
-             OSet [97; 98] 5; OSet [97; 98; 95] 9; ODel [97; 98];
-             ORem [97; 98];
-             OGet [97; 98]; OSet [97; 98; 95] 3;
-             OAdd [99] (PMap [(2, 3); (6, 5)] 6);
-             OSet [97; 98] 1; OGet [99; 95]; OGet [97; 98; 95]; OSet [99] 2; ODel [100]; OGet [99; 95];
-             ORem [99]; OGet [99]] in
-  iclean (snd t) None (init_state (fst t)) os = true /\
-  length (run (snd t) (init_state (fst t)) os) = 30%nat.
-Proof. vm_compute. split; reflexivity. Qed.
-
-(* ------------------------------------------------------------------ *)
-(* Depth round, item 2 continued: add_class_trait on a base class and instances of subclasses
-   with SEVERAL bases (multiple inheritance, diamonds, mixins; coq/C13/ClassOpDag.v).
-   [Reach hh k n j]: class j descends from class k; every base of every class on the way either
-   descends from k in the same manner or has no ancestor k at all ([Unaff]); and at every class on
-   the way the name n is new (absent from the class's declarative pair), or defined in the class's
-   own body, or the class has exactly one base (so single-inheritance chains always qualify).  [phase_ok] asks this for each ACCEPTED call, in the hierarchy as declared so far. *)
-
-Theorem law_holds_for_multiple_inheritance_subclass_instances_after_runtime_declarations :
-  forall hh k j adds ops i,
-    (k < j)%nat -> (j < length hh)%nat ->
-    phase_ok hh k j (tables hh) hh adds ->
-    plain_t (tabs_nth (tables hh) k) = true -> plain_t (tabs_nth (tables hh) j) = true ->
-    forallb (fun e => plainp (snd e)) adds = true ->
-    let ph := class_phase hh k (tables hh) hh adds in
-    let t := tabs_nth (fst ph) j in
-    clean_run (snd t) (init_state (fst t)) ops = true ->
-    law_hist (class_rule (vis_nth (visible (snd ph)) j)) i l_init (run (snd t) (init_state (fst t)) ops) = [].
-Proof. exact dag_runtime_declarations. Qed.
-Print Assumptions law_holds_for_multiple_inheritance_subclass_instances_after_runtime_declarations.
-
-(* the declarative side: one class with any number of bases ... *)
-Theorem runtime_declaration_is_inherited_through_several_bases :
-  forall V V' cd n p,
-    (forall b, In b (c_bases cd) -> Ext (vis_nth V b) (vis_nth V' b) n p \/ vis_nth V b = vis_nth V' b) ->
-    (exists b, In b (c_bases cd) /\ Ext (vis_nth V b) (vis_nth V' b) n p) ->
-    vis_has (vis_class V cd) n = false \/ own_has cd n = true ->
-    Ext (vis_class V cd) (vis_class V' cd) n p.
-Proof. exact Ext_multi. Qed.
-Print Assumptions runtime_declaration_is_inherited_through_several_bases.
-
-(* ... the whole set of descendants ... *)
-Theorem runtime_declaration_reaches_every_descendant :
-  forall hh k n p, (k < length hh)%nat -> plainp p = true ->
-    (if ends_us n then amem (removelast n) (snd (vis_nth (visible hh) k)) else amem n (fst (vis_nth (visible hh) k))) = false ->
-    forall j, Reach hh k n j -> Ext (vis_nth (visible hh) j) (vis_nth (visible (app_decl hh k (n, p))) j) n p.
-Proof. exact Ext_reach. Qed.
-Print Assumptions runtime_declaration_reaches_every_descendant.
-
-(* ... and the classes that do not descend from k keep their declarative pair *)
-Theorem runtime_declaration_leaves_unrelated_classes_alone :
-  forall hh k d, (k < length hh)%nat ->
-    forall j, Unaff hh k j -> vis_nth (visible (app_decl hh k d)) j = vis_nth (visible hh) j.
-Proof. exact unaff_vis. Qed.
-Print Assumptions runtime_declaration_leaves_unrelated_classes_alone.
-
-(* the model side: the recursion over __subclasses__ visits every such descendant *)
-Theorem add_class_trait_visits_every_descendant :
-  forall hh0 hh k n,
-    (forall i, i <> k -> c_bases (nth i hh dcls) = c_bases (nth i hh0 dcls)) ->
-    forall j, Reach hh k n j -> j <> k -> forall f, (j - k <= f)%nat -> is_desc hh0 f j k = true.
-Proof. exact desc_reach. Qed.
-Print Assumptions add_class_trait_visits_every_descendant.
-
-(* the name condition is necessary for the base-order reading (and the MRO reading sides with the
-   implementation on the witness) *)
-Theorem diamond_with_name_on_another_route_refuted :
-  exists hh k j adds ops,
-    (k < j)%nat /\ (j < length hh)%nat /\
-    plain_t (tabs_nth (tables hh) k) = true /\ plain_t (tabs_nth (tables hh) j) = true /\
-    forallb (fun e => plainp (snd e)) adds = true /\
-    let ph := class_phase hh k (tables hh) hh adds in
-    let t := tabs_nth (fst ph) j in
-    clean_run (snd t) (init_state (fst t)) ops = true /\
-    law_hist (class_rule (vis_nth (visible (snd ph)) j)) 0 l_init (run (snd t) (init_state (fst t)) ops) <> [] /\
-    law_hist (mro_rule (skipn 3 (snd ph)) j) 0 l_init (run (snd t) (init_state (fst t)) ops) = [].
-Proof. exact dag_condition_needed. Qed.
-Print Assumptions diamond_with_name_on_another_route_refuted.
-
-(* Non-vacuity: Base(HasStrictTraits) declares tr_ = ReadOnly; L(Base); R(Base) declares z = Any(5);
-   M(HasTraits) declares m = Any(9); D(L, M, R) declares z = Any(6).  On Base at run time: t_ = Int
-   (accepted, new to D), tr_ = Disallow (rejected), tq = Constant(3) (accepted, new to D), z = Event
-   (accepted on Base; D defines z itself).  On a D instance: trx write-once, tc an Int, tq the
-   constant, z D's own, m from the mixin, w rejected. *)
-Example multiple_inheritance_runtime_declarations_nontrivial :
-  let hh := roots ++ [mkClass [([116; 114; 95], PReadOnly VUndef)] [1%nat]; mkClass [] [3%nat];
-                      mkClass [([122], PAny 5)] [3%nat]; mkClass [([109], PAny 9)] [0%nat];
-                      mkClass [([122], PAny 6)] [4%nat; 6%nat; 5%nat]] in
-  let adds := [([116; 95], PTyped VInt 7); ([116; 114; 95], PDisallow); ([116; 113], PConstant 3); ([122], PEvent None)] in
-  let ph := class_phase hh 3 (tables hh) hh adds in
-  let t := tabs_nth (fst ph) 7 in
-  let ops := [OSet [116; 114; 120] 101; OSet [116; 114; 120] 102; OGet [116; 114; 120]; OGet [116; 99]; OSet [116; 99] 101;
-              OGet [116; 113]; OGet [122]; OGet [109]; OGet [119]] in
-  phase_ok hh 3 7 (tables hh) hh adds /\
-  plain_t (tabs_nth (tables hh) 3) = true /\ plain_t (tabs_nth (tables hh) 7) = true /\
-  clean_run (snd t) (init_state (fst t)) ops = true /\
-  map (fun e => length (c_decls e)) (snd ph) = [3; 1; 2; 4; 0; 1; 1; 1]%nat /\
-  map (fun x => o_out (snd x)) (run (snd t) (init_state (fst t)) ops) =
-  [Done; Raise TraitError; Val 101; Val 7; Raise TraitError; Val 3; Val 6; Val 9; Raise AttributeError].
-Proof.
-  split.
-  - vm_compute. split; [|split; [|split; [|exact I]]]; reach.
-  - vm_compute. repeat split; reflexivity.
-Qed.
-
-(* ------------------------------------------------------------------ *)
-(* Depth round, item 2 continued: add_class_trait calls on a BASE class k interleaved, in any order
-   and number, with the operations of a live instance of a SUBCLASS j (single or multiple
-   inheritance; coq/C13/ClassOpSubRun.v).  [sstep] is Model.add_class seen from classes k and j
-   (first theorem).  [sok] asks, step by step: an object operation is clean; a class call has a
-   plain trait and, if accepted on k, (a) finds j reachable for its name ([Reach], as above) and
-   (b) does not meet the cached-name findings on the object ([sub_clean]: a wildcard must not match a
-   name already resolved or stored unless declared / governed by an instance trait / __x__; an
-   explicit name must not be a merely cached resolution of j, nor have a value stored under it
-   unless its trait stores). *)
-
-Theorem subclass_step_is_the_model_add_class :
-  forall hh T k j n p T' out,
-    (k < length T)%nat -> (j < length T)%nat -> j <> k -> is_desc hh (length hh) j k = true ->
-    add_class hh T k n p = (T', out) ->
-    let s := mkState (fst (tabs_nth T j)) [] [] in
-    let r := sstep (s, snd (tabs_nth T j)) (tabs_nth T k) (OCls n p) in
-    o_out (snd r) = out /\ snd (fst r) = tabs_nth T' k /\
-    (s_ctd (fst (fst (fst r))), snd (fst (fst r))) = tabs_nth T' j.
-Proof. exact sstep_is_add_class. Qed.
-Print Assumptions subclass_step_is_the_model_add_class.
-
-Theorem law_holds_on_base_class_operations_interleaved_with_subclass_instance :
-  forall hh k j xs i,
-    (k < j)%nat -> (j < length hh)%nat ->
-    let tk := tabs_nth (tables hh) k in
-    let tj := tabs_nth (tables hh) j in
-    plain_t tj = true ->
-    sok k j (init_state (fst tj), snd tj) tk hh xs ->
-    law_hist_s k j hh i l_init (srun (init_state (fst tj), snd tj) tk xs) = [].
-Proof. exact interleaved_base_class_ops. Qed.
-Print Assumptions law_holds_on_base_class_operations_interleaved_with_subclass_instance.
-
-(* the step behind it: an inherited run-time declaration arriving on the class of a live object *)
-Theorem inherited_runtime_declaration_on_a_live_object :
-  forall ct0 pt s ls v v' n p,
-    Inv ct0 pt s ls -> Agr (ct0, pt) v -> Ext v v' n p -> plainp p = true ->
-    sub_clean (fst v) s pt n p = true ->
-    exists ct0', Agr (ct0', snd (sub_add s pt n p)) v' /\
-                 Inv ct0' (snd (sub_add s pt n p)) (fst (sub_add s pt n p)) ls.
-Proof. exact sub_step_ok. Qed.
-Print Assumptions inherited_runtime_declaration_on_a_live_object.
-
-(* Non-vacuity: the diamond of the previous example; on Base at run time, between the operations of
-   a D instance: t_ = Int (accepted), tr_ = Disallow (rejected), tq = Constant(3), z = Event. *)
-Example base_class_operations_interleaved_nontrivial :
-  let hh := roots ++ [mkClass [([116; 114; 95], PReadOnly VUndef)] [1%nat]; mkClass [] [3%nat];
-                      mkClass [([122], PAny 5)] [3%nat]; mkClass [([109], PAny 9)] [0%nat];
-                      mkClass [([122], PAny 6)] [4%nat; 6%nat; 5%nat]] in
-  let xs := [OObj (OGet [119]); OCls [116; 95] (PTyped VInt 7); OObj (OGet [116; 99]); OObj (OSet [116; 114; 120] 101);
-             OCls [116; 114; 95] PDisallow; OObj (OSet [116; 114; 120] 102); OObj (OGet [116; 114; 120]);
-             OCls [116; 113] (PConstant 3); OObj (OGet [116; 113]); OObj (OSet [116; 99] 101);
-             OCls [122] (PEvent None); OObj (OGet [122]); OObj (OGet [109]); OObj (OGet [119])] in
-  let tk := tabs_nth (tables hh) 3 in
-  let tj := tabs_nth (tables hh) 7 in
-  sok 3 7 (init_state (fst tj), snd tj) tk hh xs /\
-  plain_t tj = true /\
-  map (fun x => o_out (snd x)) (srun (init_state (fst tj), snd tj) tk xs) =
-  [Raise AttributeError; Done; Val 7; Done; Raise TraitError; Raise TraitError; Val 101; Done; Val 3;
-   Raise TraitError; Done; Val 6; Val 9; Raise AttributeError].
-Proof.
-  split.
-  - vm_compute.
-    repeat match goal with |- _ /\ _ => split | |- true = true => reflexivity | |- True => exact I | |- Reach _ _ _ _ => reach end.
-  - vm_compute. repeat split; reflexivity.
-Qed.
-
-(* the same for the runs the checker evaluates (CorrT.step_t on the tables of all classes, one
-   object of class j, class calls on class k) *)
-Theorem checker_runs_with_base_class_calls_are_subclass_runs :
-  forall hh0 k j, j <> k -> is_desc hh0 (length hh0) j k = true ->
-  forall xs T itd od H i ls, (k < length T)%nat -> (j < length T)%nat ->
-    law_hist_ta [j] H i [ls] (run_t hh0 [j] (T, [(itd, od)]) (map (top_of k) xs)) =
-    law_hist_s k j H i ls (srun (mkState (fst (tabs_nth T j)) itd od, snd (tabs_nth T j)) (tabs_nth T k) xs).
-Proof. exact run_t_srun. Qed.
-Print Assumptions checker_runs_with_base_class_calls_are_subclass_runs.
-
-Theorem law_holds_on_base_class_operation_runs_with_subclass_instance :
-  forall hh k j xs i,
-    (k < j)%nat -> (j < length hh)%nat -> is_desc hh (length hh) j k = true ->
-    let tk := tabs_nth (tables hh) k in
-    let tj := tabs_nth (tables hh) j in
-    plain_t tj = true ->
-    sok k j (init_state (fst tj), snd tj) tk hh xs ->
-    law_hist_ta [j] hh i [l_init] (run_t hh [j] (tables hh, [([], [])]) (map (top_of k) xs)) = [].
-Proof. exact interleaved_base_class_ops_run. Qed.
-Print Assumptions law_holds_on_base_class_operation_runs_with_subclass_instance.
-
-Example diamond_subclass_is_a_descendant :
-  let hh := roots ++ [mkClass [([116; 114; 95], PReadOnly VUndef)] [1%nat]; mkClass [] [3%nat];
-                      mkClass [([122], PAny 5)] [3%nat]; mkClass [([109], PAny 9)] [0%nat];
-                      mkClass [([122], PAny 6)] [4%nat; 6%nat; 5%nat]] in
-  is_desc hh (length hh) 7 3 = true /\ is_desc hh (length hh) 6 3 = false.
-Proof. vm_compute. split; reflexivity. Qed.
-
-(* ------------------------------------------------------------------ *)
-(* Depth round, item 2, general form (coq/C13/ClassOpGlobal.v): the runs the checker evaluates for
-   add_class_trait — CorrT.step_t on the tables of ALL classes, any number of live objects of any
-   classes, object operations and add_class_trait calls on ANY classes in any order.  One global
-   invariant [GI] (every class: its tables agree with the declarative pair of the hierarchy as
-   declared so far and satisfy the cache invariant; every object: the plain invariant against the
-   tables of its class).  [tok] asks, step by step ([tclean]): an object operation is clean; a
-   class call has a plain trait and, if accepted on class k, for every other class c: c is a
-   descendant the model visits and [Reach] holds, or c is not and [Unaff] holds; and neither the
-   classes reached nor the live objects of those classes meet the cached-name findings / finding 1
-   ([sub_clean]). *)
-
-Theorem law_holds_on_runs_with_class_operations_on_any_classes_and_objects :
-  forall hh objs ts i,
-    (forall c, (c < length hh)%nat -> plain_t (tabs_nth (tables hh) c) = true) ->
-    (forall j, (j < length objs)%nat -> (nth j objs O < length hh)%nat) ->
-    tok hh objs (tables hh, map (fun _ => ([], [])) objs) hh ts ->
-    law_hist_ta objs hh i (map (fun _ => l_init) objs)
-                (run_t hh objs (tables hh, map (fun _ => ([], [])) objs) ts) = [].
-Proof. exact global_law. Qed.
-Print Assumptions law_holds_on_runs_with_class_operations_on_any_classes_and_objects.
-
-Theorem law_holds_on_runs_from_any_state_of_the_global_invariant :
-  forall hh0 objs ts T insts lss H C0 i,
-    GI hh0 objs T insts lss H C0 -> tok hh0 objs (T, insts) H ts ->
-    law_hist_ta objs H i lss (run_t hh0 objs (T, insts) ts) = [].
-Proof. exact global_run_law. Qed.
-Print Assumptions law_holds_on_runs_from_any_state_of_the_global_invariant.
-
-(* the two steps *)
-Theorem object_step_preserves_the_global_invariant :
-  forall hh0 objs T insts lss H C0 i o,
-    GI hh0 objs T insts lss H C0 -> (i < length objs)%nat ->
-    clean_step (ostate T (nth i objs O) (nth i insts ([], []))) o = true ->
-    let c := nth i objs O in
-    let rl := class_rule (vis_nth (visible H) c) in
-    let r := C13.CorrT.step_t hh0 objs (T, insts) (C13.CorrT.TObj i o) in
-    law_step rl (nth i lss l_init) o (snd r) = [] /\
-    GI hh0 objs (fst (fst r)) (snd (fst r)) (C13.CorrT.upd lss i (law_next rl (nth i lss l_init) o (snd r))) H C0.
-Proof. exact gi_obj_step. Qed.
-Print Assumptions object_step_preserves_the_global_invariant.
-
-Theorem class_step_preserves_the_global_invariant :
-  forall hh0 objs T insts lss H C0 k n p,
-    GI hh0 objs T insts lss H C0 -> tclean hh0 objs T insts H (C13.CorrT.TClass k n p) ->
-    let r := C13.CorrT.step_t hh0 objs (T, insts) (C13.CorrT.TClass k n p) in
-    exists C0', GI hh0 objs (fst (fst r)) (snd (fst r)) lss
-                   (match o_out (snd r) with Done => app_decl H k (n, p) | _ => H end) C0'.
-Proof. exact gi_cls_step. Qed.
-Print Assumptions class_step_preserves_the_global_invariant.
-
-(* Non-vacuity, in the shape the generator produces: A(HasStrictTraits) declares tr_ = ReadOnly;
-   B(A); C(B) declares z = Any(5); live objects a, c, b.  Calls: A.t_ = Int; B.q = Any(8);
-   A.tr_ = Disallow (rejected); A.z = Event (new to B, C keeps its own); interleaved with reads
-   and writes on the three objects. *)
-Example runs_with_class_operations_nontrivial :
-  let hh := roots ++ [mkClass [([116; 114; 95], PReadOnly VUndef)] [1%nat]; mkClass [] [3%nat]; mkClass [([122], PAny 5)] [4%nat]] in
-  let objs := [3%nat; 5%nat; 4%nat] in
-  let ts := [C13.CorrT.TClass 3 [116; 95] (PTyped VInt 7); C13.CorrT.TObj 1 (OGet [116; 99]);
-             C13.CorrT.TObj 2 (OSet [116; 99] 101);
-             C13.CorrT.TClass 4 [113] (PAny 8); C13.CorrT.TObj 0 (OGet [113]); C13.CorrT.TObj 1 (OGet [113]);
-             C13.CorrT.TClass 3 [116; 114; 95] PDisallow;
-             C13.CorrT.TClass 3 [122] (PEvent None); C13.CorrT.TObj 1 (OGet [122]); C13.CorrT.TObj 2 (OGet [122]);
-             C13.CorrT.TObj 0 (OSet [116; 114; 120] 101); C13.CorrT.TObj 0 (OSet [116; 114; 120] 102)] in
-  tok hh objs (tables hh, map (fun _ => ([], [])) objs) hh ts /\
-  forallb plain_t (tables hh) = true /\
-  map (fun x => o_out (snd x)) (run_t hh objs (tables hh, map (fun _ => ([], [])) objs) ts) =
-  [Done; Val 7; Raise TraitError; Done; Raise AttributeError; Val 8; Raise TraitError; Done;
-   Val 5; Raise AttributeError; Done; Raise TraitError].
-Proof.
-  split.
-  - apply tok_of_tokb_fresh; vm_compute; reflexivity.
-  - vm_compute. split; reflexivity.
-Qed.
-
-(* ------------------------------------------------------------------ *)
-(* ... and for single-inheritance hierarchies (every class at most one base, declared before it:
-   the shape the generator produces; coq/C13/ClassOpChain.v) the reachability hypotheses hold by
-   themselves, so the hypothesis is ONE BOOLEAN over the run ([tokb]): object operations clean,
-   traits plain, and for each accepted call the classes reached and their live objects do not
-   meet the cached-name findings / finding 1 ([sub_clean]). *)
-
-Theorem law_holds_on_single_inheritance_runs_with_class_operations :
-  forall hh objs ts i,
-    chainb hh = true ->
-    forallb plain_t (tables hh) = true ->
-    forallb (fun c => Nat.ltb c (length hh)) objs = true ->
-    tokb hh objs (tables hh, map (fun _ => ([], [])) objs) hh ts = true ->
-    law_hist_ta objs hh i (map (fun _ => l_init) objs)
-                (run_t hh objs (tables hh, map (fun _ => ([], [])) objs) ts) = [].
-Proof. exact chain_law. Qed.
-Print Assumptions law_holds_on_single_inheritance_runs_with_class_operations.
-
-Theorem single_inheritance_classes_are_reached_or_unaffected :
-  forall hh0 H k n,
-    chain hh0 -> length H = length hh0 ->
-    (forall i, c_bases (nth i H dcls) = c_bases (nth i hh0 dcls)) ->
-    forall c, (c < length hh0)%nat -> forall f, (c < f)%nat ->
-      (is_desc hh0 f c k = true -> Reach H k n c) /\
-      (is_desc hh0 f c k = false -> c <> k -> Unaff H k c).
-Proof. exact chain_classes. Qed.
-Print Assumptions single_inheritance_classes_are_reached_or_unaffected.
-
-Theorem boolean_step_hypothesis_implies_the_general_one :
-  forall hh0 objs T insts lss H C0 t,
-    chain hh0 -> GI hh0 objs T insts lss H C0 ->
-    tcleanb hh0 objs T insts H t = true -> tclean hh0 objs T insts H t.
-Proof. exact tcleanb_tclean. Qed.
-Print Assumptions boolean_step_hypothesis_implies_the_general_one.
-
-Theorem boolean_run_hypothesis_implies_the_general_one :
-  forall hh objs ts,
-    chainb hh = true ->
-    forallb plain_t (tables hh) = true ->
-    forallb (fun c => Nat.ltb c (length hh)) objs = true ->
-    tokb hh objs (tables hh, map (fun _ => ([], [])) objs) hh ts = true ->
-    tok hh objs (tables hh, map (fun _ => ([], [])) objs) hh ts.
-Proof. exact tok_of_tokb_fresh. Qed.
-Print Assumptions boolean_run_hypothesis_implies_the_general_one.
-
-(* Non-vacuity: the hierarchy and objects of the previous example, a longer run (also C.w =
-   Constant(3) on the leaf class) *)
-Example single_inheritance_runs_nontrivial :
-  let hh := roots ++ [mkClass [([116; 114; 95], PReadOnly VUndef)] [1%nat]; mkClass [] [3%nat]; mkClass [([122], PAny 5)] [4%nat]] in
-  let objs := [3%nat; 5%nat; 4%nat] in
-  let ts := [C13.CorrT.TClass 3 [116; 95] (PTyped VInt 7); C13.CorrT.TObj 0 (OGet [116; 99]); C13.CorrT.TObj 1 (OGet [116; 99]);
-             C13.CorrT.TObj 2 (OSet [116; 99] 101);
-             C13.CorrT.TClass 4 [113] (PAny 8); C13.CorrT.TObj 0 (OGet [113]); C13.CorrT.TObj 1 (OGet [113]); C13.CorrT.TObj 2 (OGet [113]);
-             C13.CorrT.TClass 3 [116; 114; 95] PDisallow;
-             C13.CorrT.TClass 5 [119] (PConstant 3); C13.CorrT.TObj 1 (OGet [119]); C13.CorrT.TObj 2 (OGet [119]);
-             C13.CorrT.TClass 3 [122] (PEvent None); C13.CorrT.TObj 1 (OGet [122]); C13.CorrT.TObj 2 (OGet [122]);
-             C13.CorrT.TObj 0 (OSet [116; 114; 120] 101); C13.CorrT.TObj 0 (OSet [116; 114; 120] 102)] in
-  chainb hh = true /\ forallb plain_t (tables hh) = true /\
-  forallb (fun c => Nat.ltb c (length hh)) objs = true /\
-  tokb hh objs (tables hh, map (fun _ => ([], [])) objs) hh ts = true /\
-  map (fun x => o_out (snd x)) (run_t hh objs (tables hh, map (fun _ => ([], [])) objs) ts) =
-  [Done; Val 7; Val 7; Raise TraitError; Done; Raise AttributeError; Val 8; Val 8; Raise TraitError; Done;
-   Val 3; Raise AttributeError; Done; Val 5; Raise AttributeError; Done; Raise TraitError].
-Proof. vm_compute. repeat split; reflexivity. Qed.
-
-(* ------------------------------------------------------------------ *)
-(* Depth round, extra: the law on the life of a List instance trait (coq/C13/ListLife.v) — until
-   now only the install/remove theorems above.  [lpair_op n o]: o is a get / set / del of n or of
-   n_items; [LPair]: List at n, its items event at n_items, nothing stored under n_items. *)
-
-Theorem list_pair_step_obeys_the_law :
-  forall (crule : name -> rule) pt n s ls o,
-    LPair n s -> Agree s ls -> lpair_op n o = true ->
-    law_step crule ls o (snd (step pt s o)) = [] /\ LPair n (fst (step pt s o)) /\
-    Agree (fst (step pt s o)) (law_next crule ls o (snd (step pt s o))).
-Proof. exact lpair_step. Qed.
-Print Assumptions list_pair_step_obeys_the_law.
-
-(* from any state whose bookkeeping agrees, under any class-level rule and any class tables:
-   add_trait(n, List(Int)), any history on n and n_items, with or without remove_trait(n) *)
-Theorem law_holds_on_the_life_of_a_list_trait :
-  forall (crule : name -> rule) pt n ops s ls i,
-    Agree s ls -> assoc (n ++ items_suffix) (s_od s) = None -> forallb (lpair_op n) ops = true ->
-    law_hist crule i ls (run pt s (OAdd n PList :: ops)) = [] /\
-    law_hist crule i ls (run pt s (OAdd n PList :: ops ++ [ORem n])) = [].
-Proof. exact list_life. Qed.
-Print Assumptions law_holds_on_the_life_of_a_list_trait.
-
-Theorem law_holds_on_list_trait_of_a_fresh_object :
-  forall (crule : name -> rule) ct pt n ops i,
-    forallb (lpair_op n) ops = true ->
-    law_hist crule i l_init (run pt (init_state ct) (OAdd n PList :: ops)) = [] /\
-    law_hist crule i l_init (run pt (init_state ct) (OAdd n PList :: ops ++ [ORem n])) = [].
-Proof. exact list_life_fresh. Qed.
-Print Assumptions law_holds_on_list_trait_of_a_fresh_object.
-
-(* every class without Map/List declarations, any clean history on plain traits, then the life *)
-Theorem law_holds_on_histories_with_list_traits :
-  forall h c pre n ops i,
-    plain_class h c = true ->
-    let t := class_tables h c in
-    clean_run (snd t) (init_state (fst t)) pre = true ->
-    amem (n ++ items_suffix) (s_od (final_state (snd t) (init_state (fst t)) pre)) = false ->
-    forallb (lpair_op n) ops = true ->
-    law_hist (spec_rule h c) i l_init (run (snd t) (init_state (fst t)) (pre ++ OAdd n PList :: ops)) = [] /\
-    law_hist (spec_rule h c) i l_init (run (snd t) (init_state (fst t)) (pre ++ OAdd n PList :: ops ++ [ORem n])) = [].
-Proof. exact plain_then_list_life_spec. Qed.
-Print Assumptions law_holds_on_histories_with_list_traits.
-
-(* any access that changes __dict__ at its own name only keeps the law's bookkeeping in agreement *)
-Theorem access_keeps_the_bookkeeping_in_agreement :
-  forall (crule : name -> rule) pt s ls o,
-    Agree s ls -> is_access o = true ->
-    (forall a, name_eqb (op_name o) a = false -> assoc a (s_od (fst (step pt s o))) = assoc a (s_od s)) ->
-    Agree (fst (step pt s o)) (law_next crule ls o (snd (step pt s o))).
-Proof. exact access_agree. Qed.
-Print Assumptions access_keeps_the_bookkeeping_in_agreement.
-
-(* the hypothesis on n_items is needed (finding 1 under the installed sub-trait) *)
-Theorem stale_value_under_items_event_refuted :
-  exists (crule : name -> rule) ct pt n ops,
-    forallb (lpair_op n) ops = true /\
-    law_hist crule 0 l_init (run pt (init_state ct) (OSet (n ++ items_suffix) 5 :: OAdd n PList :: ops)) <> [].
-Proof. exact stale_items_value_refutes. Qed.
-Print Assumptions stale_value_under_items_event_refuted.
-
-(* Non-vacuity: strict class with the wildcard a_ = Int; a plain prefix; add_trait("ab", List(Int));
-   reads (empty list), rejected and Undefined assignments, the items event (read refused, None
-   accepted, 5 rejected), deletes; remove_trait; afterwards both names are the wildcard's again *)
-Example list_life_nontrivial :
-  let t := class_tables [mkClass [([97; 95], PTyped VInt 7)] [1%nat]] 3 in
-  let pre := [OSet [97; 98; 95] 5; OGet [98]; OAdd [98] (PAny 5); OSet [98] 6] in
-  let ni := [97; 98] ++ items_suffix in
-  let ops := [OGet [97; 98]; OSet [97; 98] 5; OGet ni; OSet ni 200; OSet ni 5; OSet [97; 98] 201; OGet [97; 98];
-              ODel [97; 98]; ODel ni; OGet [97; 98]] in
-  plain_class [mkClass [([97; 95], PTyped VInt 7)] [1%nat]] 3 = true /\
-  clean_run (snd t) (init_state (fst t)) pre = true /\
-  amem ni (s_od (final_state (snd t) (init_state (fst t)) pre)) = false /\
-  forallb (lpair_op [97; 98]) ops = true /\
-  map (fun x => o_out (snd x))
-      (run (snd t) (init_state (fst t)) (pre ++ OAdd [97; 98] PList :: ops ++ [ORem [97; 98]; OGet [97; 98]; OGet ni])) =
-  [Done; Raise AttributeError; Done; Done; Done; Val 300; Raise TraitError; Raise AttributeError; Done;
-   Raise TraitError; Done; Val 201; Done; Done; Val 300; Val 1; Val 7; Val 7].
-Proof. vm_compute. repeat split; reflexivity. Qed.
-
-(* ------------------------------------------------------------------ *)
-(* Depth round, item 1 continued: TWO instances of a class with a trait_added listener, every
-   interleaving of their histories (Model.step2_l, the runs CorrL evaluates; coq/C13/ListenerInd2.v).
-   The instances share the class dictionary only: a name resolved by the first touch of one
-   instance is a known name for the other, whose listener is not called for it. *)
-Theorem law_holds_on_two_instance_listener_histories :
-  forall h c lst ops i,
-    plain_class h c = true ->
-    (forall n lp, listener lst n = Some lp -> plainp lp = true) ->
-    let t := class_tables h c in
-    lclean_run2 (snd t) lst (init_state2 (fst t)) ops = true ->
-    law_hist2_l lst (spec_rule h c) i l_init l_init (run2_lk lst (snd t) (init_state2 (fst t)) ops) = [].
-Proof. exact law_listener_two_instances. Qed.
-Print Assumptions law_holds_on_two_instance_listener_histories.
-
-(* the checker's law codes for listener classes (CorrL.law_tag_l, any two-instance history) are
-   empty exactly when the un-relabelled law is *)
-Theorem two_instance_listener_law_codes_relabelling_is_faithful :
-  forall lst mr sr h i la lb,
-    C13.CorrL.law_tag_l lst mr sr i la lb h = [] <-> law_hist2_l lst mr i la lb h = [].
-Proof. exact law_tag_l_nil. Qed.
-Print Assumptions two_instance_listener_law_codes_relabelling_is_faithful.
-
-(* Non-vacuity: the class and listener of listener_history_nontrivial, two instances: the second
-   instance finds n_b already resolved (strict class: refused) while the first reads the listener's
-   Int; add_trait replaced by the listener; remove_trait on the instance that has no trait *)
-Example two_instance_listener_history_nontrivial :
-  let t := class_tables [mkClass [([97; 95], PTyped VStr 102)] [1%nat]] 3 in
-  let lst := [([110; 95], PTyped VInt 7); ([107; 95], PConstant 42); ([101; 95], PEvent None)] in
-  let ops := [(false, OSet [110; 95; 98] 101); (true, OGet [110; 95; 98]); (true, OSet [110; 95; 98] 5); (false, OGet [110; 95; 98]);
-              (true, OSet [107; 95; 99] 1); (false, OGet [107; 95; 99]); (false, OAdd [110; 95; 102] (PTyped VStr 102));
-              (true, OSet [110; 95; 102] 101); (false, OSet [110; 95; 102] 101); (true, ORem [110; 95; 98]); (true, OGet [110; 95; 98]);
-              (false, OGet [122])] in
-  lclean_run2 (snd t) lst (init_state2 (fst t)) ops = true /\
-  map (fun x => o_out (snd (fst x))) (run2_lk lst (snd t) (init_state2 (fst t)) ops) =
-  [Raise TraitError; Raise AttributeError; Raise TraitError; Val 7; Raise TraitError; Raise AttributeError; Done;
-   Raise TraitError; Raise TraitError; Val 0; Raise AttributeError; Raise AttributeError].
-Proof. vm_compute. split; reflexivity. Qed.
-
-(* ------------------------------------------------------------------ *)
-(* Depth round, item 2, in the checker's own terms (coq/C13/ClassOpTie.v): CorrT.law_codes — the
-   function ./check evaluates on the implementation's observations (mro_rule on the user classes,
-   CorrT.add_decl, re-labelling) — returns no code on the MODEL's runs: single-inheritance user
-   classes h, any number of fresh objects of any classes, object operations and add_class_trait
-   calls on any user classes, in any order, under the boolean [tokb]. *)
-Theorem checker_law_codes_vanish_on_model_runs_with_class_operations :
-  forall h objs ts,
-    single h = true -> chainb (roots ++ h) = true ->
-    forallb plain_t (tables (roots ++ h)) = true ->
-    forallb (fun c => Nat.ltb c (length (roots ++ h))) objs = true ->
-    forallb (fun t => match t with C13.CorrT.TClass k _ _ => Nat.leb 3 k | _ => true end) ts = true ->
-    tokb (roots ++ h) objs (tables (roots ++ h), map (fun _ => ([], [])) objs) (roots ++ h) ts = true ->
-    C13.CorrT.law_codes (h, objs, run_t (roots ++ h) objs (tables (roots ++ h), map (fun _ => ([], [])) objs) ts) = [].
-Proof. exact checker_law_codes_on_model_runs. Qed.
-Print Assumptions checker_law_codes_vanish_on_model_runs_with_class_operations.
-
-(* on any history (model's or implementation's): the checker's codes are empty exactly when the
-   declarative law with the declarations appended is *)
-Theorem checker_class_operation_law_is_the_declarative_law_on_single_inheritance :
-  forall hist objs h i lss,
-    single h = true -> forallb (fun k => Nat.ltb k (length (roots ++ h))) objs = true ->
-    user_calls hist = true ->
-    C13.CorrT.law_tag_t objs h i lss hist = [] <-> law_hist_ta objs (roots ++ h) i lss hist = [].
-Proof. exact law_tag_t_ta. Qed.
-Print Assumptions checker_class_operation_law_is_the_declarative_law_on_single_inheritance.
-
-Example checker_law_codes_nontrivial :
-  let h := [mkClass [([116; 114; 95], PReadOnly VUndef)] [1%nat]; mkClass [] [3%nat]; mkClass [([122], PAny 5)] [4%nat]] in
-  let objs := [3%nat; 5%nat; 4%nat] in
-  let ts := [C13.CorrT.TClass 3 [116; 95] (PTyped VInt 7); C13.CorrT.TObj 1 (OGet [116; 99]);
-             C13.CorrT.TObj 2 (OSet [116; 99] 101);
-             C13.CorrT.TClass 4 [113] (PAny 8); C13.CorrT.TObj 0 (OGet [113]); C13.CorrT.TObj 1 (OGet [113]);
-             C13.CorrT.TClass 3 [116; 114; 95] PDisallow;
-             C13.CorrT.TClass 3 [122] (PEvent None); C13.CorrT.TObj 1 (OGet [122]); C13.CorrT.TObj 2 (OGet [122]);
-             C13.CorrT.TObj 0 (OSet [116; 114; 120] 101); C13.CorrT.TObj 0 (OSet [116; 114; 120] 102)] in
-  single h = true /\ chainb (roots ++ h) = true /\ forallb plain_t (tables (roots ++ h)) = true /\
-  forallb (fun c => Nat.ltb c (length (roots ++ h))) objs = true /\
-  forallb (fun t => match t with C13.CorrT.TClass k _ _ => Nat.leb 3 k | _ => true end) ts = true /\
-  tokb (roots ++ h) objs (tables (roots ++ h), map (fun _ => ([], [])) objs) (roots ++ h) ts = true.
-Proof. vm_compute. repeat split; reflexivity. Qed.
